@@ -550,6 +550,22 @@ func (w *Writer) writeUnary(u ir.ExprUnary) (string, error) {
 	}
 }
 
+// writeBinaryOperand writes an operand of a binary operator. The pack4xU8 / pack4xU8Clamp
+// polyfill is a bare chain of `|` (the signed variants are wrapped in uint(...)): written
+// inline next to an operator that binds tighter it needs its own parentheses.
+func (w *Writer) writeBinaryOperand(handle ir.ExpressionHandle) (string, error) {
+	text, err := w.writeExpression(handle)
+	if err != nil {
+		return "", err
+	}
+	if _, named := w.namedExpressions[handle]; !named && w.currentFunction != nil && int(handle) < len(w.currentFunction.Expressions) {
+		if m, ok := w.currentFunction.Expressions[handle].Kind.(ir.ExprMath); ok && (m.Fun == ir.MathPack4xU8 || m.Fun == ir.MathPack4xU8Clamp) {
+			return "(" + text + ")", nil
+		}
+	}
+	return text, nil
+}
+
 // writeBinary writes a binary expression.
 func (w *Writer) writeBinary(b ir.ExprBinary) (string, error) {
 	// Try const-evaluation: if both operands resolve to constant values,
@@ -559,11 +575,11 @@ func (w *Writer) writeBinary(b ir.ExprBinary) (string, error) {
 		return result, nil
 	}
 
-	left, err := w.writeExpression(b.Left)
+	left, err := w.writeBinaryOperand(b.Left)
 	if err != nil {
 		return "", err
 	}
-	right, err := w.writeExpression(b.Right)
+	right, err := w.writeBinaryOperand(b.Right)
 	if err != nil {
 		return "", err
 	}
